@@ -68,7 +68,7 @@ def _task(rng, to, gates=True):
     if k < 0.45:
         op = ["enq", "ret", 0]
     elif k < 0.6:
-        op = ["enq", "raise", 0]
+        op = ["enq", "raise", rng.choice([0, 0, "falsy"])]
     elif k < 0.85 and gates:
         op = ["enq", "gate", rng.randrange(2)]
     else:
@@ -562,6 +562,19 @@ def analyse(program, log, verdict, thread_errors=()):
         h.max_serving = max(h.max_serving, cur)
     if h.max_serving > mx:
         v.append(Violation("C10", "upper-bound", "serving-workers", "%d workers serving the queue with max_threads=%d" % (h.max_serving, mx)))
+    # C11: after stop() + start() the pool behaves as a fresh one: no worker started before the stop still takes tasks
+    for sc, sr in h.stops:
+        if sr == INF:
+            continue
+        nxt = [c for c, r in h.starts if c > sr]
+        if not nxt:
+            continue
+        restart = min(nxt)
+        for wid, w in h.workers.items():
+            if w["start"] < sc and any(g[1] > restart and g[2] == "item" for g in w["gets"]):
+                v.append(Violation("C11", "restart-fresh", "old-worker-serves-after-restart",
+                                   "a worker started before stop() took a task after the pool was started again"))
+                break
     if not faulty and mn > 0:
         ev = []
         for w in h.workers.values():
